@@ -42,6 +42,8 @@ Handle(c, w, sender, msg, funds) ==
     [] c = "registry"   -> RegHandle(w, sender, msg)
     [] c = "swap"       -> SwapHandle(w, sender, msg)
     [] c \in {"airdrop", "airdropc", "airtoken", "airpair"} -> AirHandle(c, w, sender, msg)
+    [] c = "sink"       -> HOk(w, <<>>)          \* lets a privileged handler's cascade succeed when an owner wires it in: authorisation is then
+                                                \* judged on the handler's own guard, not on a sibling contract happening to reject the call
     [] OTHER            -> HErr(w, "no such contract")
 
 \* one line of the effect log per dispatched message
